@@ -491,7 +491,7 @@ func (db *Database) collectResults(scores map[int]float64, pq *nlp.ProcessedQuer
 	}
 	sort.Ints(docIDs)
 
-	results := make([]SearchResult, 0, utils.Min(len(scores), options.Limit*3))
+	results := make([]SearchResult, 0, resultBufferCap(len(scores), options.Limit))
 	for _, docID := range docIDs {
 		score := scores[docID]
 		cmd := &db.Commands[docID]
